@@ -87,6 +87,8 @@ def cases(shard, tier):
                 continue
             if vf == "scalar7" and mod in (3, 64):
                 continue
+            if vf == "floats" and mod in (1, 3, 5):
+                continue
             yield ["grid", keys, mod, kdt, vf]
 
 
@@ -240,7 +242,7 @@ def _check_grid(case, acc):
     absent = [k for k in probe if k not in keys]
     pu = list(keys) + [k for k in absent if k % m in buckets][:2] + [k for k in absent if k % m not in buckets][:2]
     pu += [k for k in absent if k not in pu]
-    pairs = list(itertools.product(pu[:6], repeat=2))
+    pairs = list(itertools.product(pu[:6 if (kdt != "int64" or len(keys) <= 2) else 5], repeat=2))
     observe_table(acc, f, d, keys, mod, kdt, probe, pairs, classify=_classify_factory(keys, mod, kdt, vf.startswith("scalar")))
     # HashSet membership, scalar and vector
     karr = np.array(keys, dtype=kdt) if kdt else list(keys)
